@@ -154,6 +154,16 @@ fn accessors(d: &DifficultyAttributes, p: &PerformanceAttributes) -> Result<(), 
     Ok(())
 }
 
+fn mode_from_ref(map: &rosu_pp::Beatmap, mode: GameMode) -> Performance<'_> {
+    use rosu_pp::{catch::CatchPerformance, mania::ManiaPerformance, osu::OsuPerformance, taiko::TaikoPerformance};
+    match mode {
+        GameMode::Osu => Performance::Osu(OsuPerformance::from(map)),
+        GameMode::Taiko => Performance::Taiko(TaikoPerformance::from(map)),
+        GameMode::Catch => Performance::Catch(CatchPerformance::from(map)),
+        GameMode::Mania => Performance::Mania(ManiaPerformance::from(map)),
+    }
+}
+
 fn case(t: &mut Tape, info: &mut CaseInfo) -> Result<(), String> {
     // a third of the cases draws settings from the wide domain (overrides up to +-20 and beyond, clock
     // rates 0.01..100): the property quantifies over all Difficulty settings
@@ -180,6 +190,9 @@ fn case(t: &mut Tape, info: &mut CaseInfo) -> Result<(), String> {
             Performance::new(c.map.clone()).mods(c.dspec.mods.build(c.target)).mode_or_ignore(c.target),
         ),
         ("explicit_map.performance()", explicit.performance()),
+        ("<Mode>Performance::new(source_map by value)", super::common::perf_for_mode_owned(c.map.clone(), c.target, false)),
+        ("<Mode>Performance::from(source_map by value)", super::common::perf_for_mode_owned(c.map.clone(), c.target, true)),
+        ("<Mode>Performance::from(&source_map)", mode_from_ref(&c.map, c.target)),
         ("Performance::new(DifficultyAttributes)", Performance::new(a.clone())),
         ("Performance::from(DifficultyAttributes)", Performance::from(a.clone())),
         ("DifficultyAttributes::performance()", a.clone().performance()),
@@ -263,9 +276,9 @@ pub fn property() -> Property {
         id: "C04",
         subchecks: vec![SubCheck {
             name: "attrs-path-vs-map-path",
-            rule: "G-MAP (all modes + converts, <=50 objects) x G-DIFF incl. passed_objects (0..N+3, u32::MAX) x score builder spec (each of accuracy/combo/misses/every hit-result setter independently absent or 0..N+3, occasionally >>N, both priorities). Oracle: result of the mode-specific builder on the map == result from 12 other entry points (generic Performance::new on the explicitly converted map by ref/value, map.performance(), Performance::new/from(DifficultyAttributes), attrs.performance(), mode-specific attrs.performance()/Performance::new(attrs), the same for PerformanceAttributes incl. try_new; the generic and mode-specific new/from fed with the mode-specific attribute structs; <Mode>DifficultyAttributes::from(<Mode>PerformanceAttributes)); accessor methods (pp, stars, max_combo, n_objects, is_convert) agree with the fields with the same Difficulty and score setters applied, plus the same settings supplied through the individual Performance setters in a generated order on both the map and the attribute path; for osu! sources the score set on the osu! builder before try_mode / mode_or_ignore(target) vs the attribute path; embedded difficulty == one-shot difficulty. Non-trivial: score spec non-default, pp>0, settings non-default.",
-            quick: 40_000,
-            thorough: 200_000,
+            rule: "G-MAP (all modes + converts, <=50 objects) x G-DIFF incl. passed_objects (0..N+3, u32::MAX) x score builder spec (each of accuracy/combo/misses/every hit-result setter independently absent or 0..N+3, occasionally >>N, both priorities). Oracle: result of the mode-specific builder on the map == result from 12 other entry points (generic Performance::new on the explicitly converted map by ref/value, map.performance(), the mode-specific builder given the source map by value or through From, Performance::new/from(DifficultyAttributes), attrs.performance(), mode-specific attrs.performance()/Performance::new(attrs), the same for PerformanceAttributes incl. try_new; the generic and mode-specific new/from fed with the mode-specific attribute structs; <Mode>DifficultyAttributes::from(<Mode>PerformanceAttributes)); accessor methods (pp, stars, max_combo, n_objects, is_convert) agree with the fields with the same Difficulty and score setters applied, plus the same settings supplied through the individual Performance setters in a generated order on both the map and the attribute path; for osu! sources the score set on the osu! builder before try_mode / mode_or_ignore(target) vs the attribute path; embedded difficulty == one-shot difficulty. Non-trivial: score spec non-default, pp>0, settings non-default.",
+            quick: 80_000,
+            thorough: 400_000,
             tape_len: 1500,
             f: case,
             direct: None,
